@@ -32,10 +32,10 @@ func (r *Rng) Intn(n int) int {
 	}
 	return int(r.Next() % uint64(n))
 }
-func (r *Rng) Bool() bool          { return r.Next()&1 == 1 }
-func (r *Rng) Chance(p int) bool   { return r.Intn(100) < p }
+func (r *Rng) Bool() bool             { return r.Next()&1 == 1 }
+func (r *Rng) Chance(p int) bool      { return r.Intn(100) < p }
 func (r *Rng) Pick(s []string) string { return s[r.Intn(len(s))] }
-func (r *Rng) Fork() *Rng          { return NewRng(r.Next()) }
+func (r *Rng) Fork() *Rng             { return NewRng(r.Next()) }
 
 // ---------------------------------------------------------------- model process
 
@@ -212,9 +212,9 @@ func NormFloats(s string) string {
 // ---------------------------------------------------------------- report
 
 type Disagreement struct {
-	Case   string `json:"case"`            // hex or text of the input
-	Where  string `json:"where"`           // front-end / variant
-	Kind   string `json:"kind"`            // impl-vs-spec | impl-vs-model | model-vs-spec
+	Case   string `json:"case"`  // hex or text of the input
+	Where  string `json:"where"` // front-end / variant
+	Kind   string `json:"kind"`  // impl-vs-spec | impl-vs-model | model-vs-spec
 	Impl   string `json:"impl"`
 	Model  string `json:"model,omitempty"`
 	Spec   string `json:"spec,omitempty"`
